@@ -271,6 +271,9 @@ func (df *DataFile) ReadRecordValue(logRecordPos *DataPos) ([]byte, error) {
 	if err != nil {
 		return nil, err
 	}
+	if !checkLogRecord(buf.B) {
+		return nil, ErrInvalidCRC
+	}
 	value := DecodeLogRecordValue(buf.B)
 	return value, nil
 }
@@ -357,6 +360,9 @@ func (reader *DataReader) NextLogRecord() (*LogRecord, *DataPos, error) {
 	if err != nil {
 		return nil, nil, err
 	}
+	if !checkLogRecord(data) {
+		return nil, nil, ErrInvalidCRC
+	}
 	return DecodeLogRecord(data), pos, nil
 }
 
@@ -370,6 +376,9 @@ func (reader *DataReader) NextHintRecord() ([]byte, *DataPos, error) {
 		return nil, nil, err
 	}
 
+	if !checkHintRecord(data) {
+		return nil, nil, ErrInvalidCRC
+	}
 	hintRecord, pos := DecodeHintRecord(data)
 	return hintRecord, pos, nil
 }
